@@ -3,7 +3,8 @@ import os, re, shutil, subprocess, sys, time, hashlib, fcntl
 
 VERIF = os.path.dirname(os.path.dirname(os.path.abspath(__file__)))
 REPO = os.environ.get("VERIF_REPO", "/repo")
-CACHE = os.path.join(VERIF, ".cache")
+CACHE = os.environ.get("VERIF_CACHE") or os.path.join(VERIF, ".cache")
+OUT = os.environ.get("VERIF_OUT") or VERIF   # where evidence/ and replays/ are written
 HARNESS = os.path.join(VERIF, "harness")
 
 BASE_ENV = {"CARGO_NET_OFFLINE": "true", "CARGO_TERM_COLOR": "never"}
@@ -59,10 +60,35 @@ def gen_rwslib():
     p = os.path.join(d, "Cargo.toml")
     if not os.path.exists(p) or open(p).read() != text:
         open(p, "w").write(text)
-    lock = os.path.join(REPO, "Cargo.lock")
-    if os.path.exists(lock) and not os.path.exists(os.path.join(HARNESS, "Cargo.lock")):
-        shutil.copy(lock, os.path.join(HARNESS, "Cargo.lock"))
     return d
+
+
+def _write_if_changed(path, data):
+    try:
+        if open(path, "rb").read() == data:
+            return
+    except OSError:
+        pass
+    os.makedirs(os.path.dirname(path), exist_ok=True)
+    with open(path, "wb") as f:
+        f.write(data)
+
+
+def sync_harness():
+    """Mirror /verif/harness into the cache with a manifest that points at this cache's generated rwslib
+    (so that several caches - one per scratch copy of the repository - can build side by side)."""
+    dst = os.path.join(CACHE, "harness")
+    for dp, dns, fns in os.walk(os.path.join(HARNESS, "src")):
+        for n in fns:
+            src = os.path.join(dp, n)
+            rel = os.path.relpath(src, HARNESS)
+            _write_if_changed(os.path.join(dst, rel), open(src, "rb").read())
+    toml = open(os.path.join(HARNESS, "Cargo.toml")).read().replace('path = "../.cache/rwslib"', 'path = "%s"' % os.path.join(CACHE, "rwslib"))
+    _write_if_changed(os.path.join(dst, "Cargo.toml"), toml.encode())
+    lock = os.path.join(REPO, "Cargo.lock")
+    if os.path.exists(lock) and not os.path.exists(os.path.join(dst, "Cargo.lock")):
+        shutil.copy(lock, os.path.join(dst, "Cargo.lock"))
+    return dst
 
 
 def harness(lane="rel"):
@@ -70,10 +96,11 @@ def harness(lane="rel"):
     tool, prof, flags, extra = LANES[lane]
     with _lock("build-" + lane):
         gen_rwslib()
+        hdir = sync_harness()
         tdir = os.path.join(CACHE, "target", lane)
         cmd = ["cargo"] + tool + ["build", "--offline", "--bin", "vh"] + prof + extra + ["--target-dir", tdir]
         t0 = time.time()
-        rc, out = _run(cmd, env={"RUSTFLAGS": flags}, cwd=HARNESS)
+        rc, out = _run(cmd, env={"RUSTFLAGS": flags}, cwd=hdir)
         if rc != 0:
             raise BuildError("harness build failed (lane %s):\n%s" % (lane, out[-6000:]))
         sub = "x86_64-unknown-linux-gnu/release" if "--target" in extra else "release"
@@ -96,9 +123,10 @@ def binary(lane="rel"):
 def miri_cmd():
     """argv prefix + env for running the miri_pool bin under Miri."""
     gen_rwslib()
+    hdir = sync_harness()
     tdir = os.path.join(CACHE, "target", "miri")
     cmd = ["cargo", "+nightly", "miri", "run", "--offline", "--bin", "miri_pool", "--target-dir", tdir, "--"]
-    return cmd, HARNESS
+    return cmd, hdir
 
 
 if __name__ == "__main__":
